@@ -48,11 +48,9 @@ def main():
     lines, violations = [], 0
     os.makedirs(os.path.join(VERIF, 'replays'), exist_ok=True)
     n = 0
+    for k in res.known:
+        lines.append('KNOWN-FINDING: property=%s %s %s' % (args.prop, k['id'], k['what']))
     for f in res.findings:
-        k = runner.match_known(kf, args.prop, f)
-        if k is not None:
-            lines.append('KNOWN-FINDING: property=%s %s %s' % (args.prop, k['id'], k['what']))
-            continue
         n += 1
         path = os.path.join('replays', '%s-%s-%d-%d.json' % (args.prop, tier, seed, n))
         f = dict(f)
@@ -73,7 +71,8 @@ def main():
         lines.append('VIOLATION property=%s replay=%s no-failing-input-found' % (args.prop, path))
         violations += 1
     for k in runner.replay_known(kf, args.prop):
-        lines.append(k)
+        if k not in lines:
+            lines.append(k)
 
     # ---- evidence --------------------------------------------------------------------------
     obligations = len(theorems) + len(cfg['bridge'])
